@@ -61,6 +61,8 @@ def make_exc(kind: str, tag: Any) -> BaseException:
         return CustomError(f"injected {tag}")
     if kind == "Group":
         return ExceptionGroup(f"injected group {tag}", [ValueError(f"member {tag}"), KeyError(f"member2 {tag}")])
+    if kind == "BaseGroup":
+        return BaseExceptionGroup(f"injected base group {tag}", [BaseCustom(f"member {tag}"), ValueError(f"member2 {tag}")])
     if kind == "KeyboardInterrupt":
         return KeyboardInterrupt(f"injected {tag}")
     if kind == "SystemExit":
@@ -79,7 +81,7 @@ def make_exc(kind: str, tag: Any) -> BaseException:
     raise ValueError(kind)
 
 
-EXC_KINDS = ["ValueError", "Custom", "Group", "KeyboardInterrupt", "SystemExit", "BaseCustom"]
+EXC_KINDS = ["ValueError", "Custom", "Group", "KeyboardInterrupt", "SystemExit", "BaseCustom", "BaseGroup"]
 ORDINARY_EXC_KINDS = ["ValueError", "Custom", "LookupError"]
 
 
